@@ -76,6 +76,9 @@ def run(ctx):
     for (s, c), p in zip(sqls, planned):
         st = p['status'].split(':')[0]
         status[st] = status.get(st, 0) + 1
+        if p.get('fetch_text_mismatch'):
+            ctx.violation('fetch-text-is-not-its-tree:%s' % c.get('shape'), 'the text of a fetch query does not say what its tree says',
+                          {'sql': s, 'fetch_text': p['fetch_text_mismatch']}, pin=(s, 'text'))
         if p['status'] == 'ok':
             p['rec'] = c
             cases.append(p)
